@@ -202,3 +202,34 @@ Definition auto_ok (c : auto_case) : bool :=
                                   a_white := []; a_black := []; a_remap := []; a_blacklist_remapped := true |} in
   let o' := auto_yaqlize parent o in
   Z.eqb (slot_code (ac_inst c) (h_inst o')) (fst (ac_obs c)) && Z.eqb (slot_code (ac_class c) (h_class o')) (snd (ac_obs c)).
+
+(* ---- the object's own indexing protocol ---------------------------------------------------
+   `$obj[key]` (yaqlized.indexation) performs obj[key] and nothing else.  What happens then is the
+   object's business: a __getitem__ that takes the key answers or raises its own error AFTER having
+   been asked; an object without __getitem__, or whose __getitem__ refuses string keys, makes obj[key]
+   raise TypeError - the expression gets that TypeError, never an attribute read. *)
+Inductive iproto :=
+| ISubscript        (* __getitem__ is asked for the key *)
+| INoStr.           (* not subscriptable by a string key: obj[key] raises TypeError *)
+
+Definition index_on (rs ps : nat -> name -> bool) (p : iproto) (st : option settings) (n : name) : outcome :=
+  match access rs ps FIndex st n with
+  | Reach m => match p with ISubscript => Reach m | INoStr => Denied EType end
+  | Denied e => Denied e
+  end.
+
+Record icase := {
+  ic_regex : table; ic_pred : table;
+  ic_via_yaqlize : bool;
+  ic_args : option yargs;
+  ic_proto : iproto;
+  ic_name : name;
+  ic_obs : outcome         (* Reach n: __getitem__ was asked for n; Denied e: error class, nothing touched *)
+}.
+
+Definition icase_ok (c : icase) : bool :=
+  let st := match ic_args c with
+            | None => None
+            | Some a => if ic_via_yaqlize c then yaqlize None a else Some (build_settings a)
+            end in
+  outcome_eqb (index_on (table_oracle (ic_regex c)) (table_oracle (ic_pred c)) (ic_proto c) st (ic_name c)) (ic_obs c).
